@@ -825,12 +825,15 @@ impl SimdCopy {
             len -= 16;
         }
 
-        // Handle remaining bytes with overlapping load
+        // Handle remaining bytes (1..=15) with two overlapping 8-byte moves: the first 8 bytes
+        // and the last 8 bytes together cover every tail length from 8 to 15
         if len > 0 {
             if len >= 8 {
                 let offset = len - 8;
                 unsafe {
+                    let head = (src as *const u64).read_unaligned();
                     let tail = (src.add(offset) as *const u64).read_unaligned();
+                    (dst as *mut u64).write_unaligned(head);
                     (dst.add(offset) as *mut u64).write_unaligned(tail);
                 }
             } else {
